@@ -267,6 +267,80 @@ Definition run_entry (e : lentry) : result lobj :=
   | E_from_json d => labels_from_dict d
   end.
 
+(* ---- entry points, uniformly (one value for one field arriving through entry point sem) ---- *)
+
+(* labels_object.field = value : there is no __setattr__ on Labels / JSONField (the translator fails closed if one appears) *)
+Definition attr_assign (st : lobj) (k : str) (v : lval) : lobj := lset st k v.
+
+(* BaseSliver.set_labels, when the source re-validates: lab._set_fields( every non-None field of lab ) *)
+Definition revalidate (st : lobj) : option exn := snd (set_fields false labels_init (labels_encode st)).
+
+Definition attach_labels (revalidates : bool) (st : lobj) : result lobj :=
+  if revalidates then match revalidate st with None => Ok st | Some e => Err e end else Ok st.
+
+Definition ep_apply (sem : ep_sem) (cur : lobj) (kv : str * lval) : lobj * option exn :=
+  match sem with
+  | EP_set_fields fg fresh => set_one fg (if fresh then labels_init else cur) kv
+  | EP_unchecked => (attr_assign cur (fst kv) (snd kv), None)
+  | EP_attach r => match attach_labels r (attr_assign cur (fst kv) (snd kv)) with
+                   | Ok st => (st, None)
+                   | Err e => (cur, Some e)
+                   end
+  end.
+
+Definition ep_checked (sem : ep_sem) : bool :=
+  match sem with EP_set_fields _ _ => true | EP_unchecked => false | EP_attach r => r end.
+
+(* ---- a list value with elements that are not strings ---- *)
+Inductive lelem :=
+| LE_str (s : str)
+| LE_int (z : Z)        (* int, bool, float: z is what int(element) returns *)
+| LE_bad.               (* None, list, dict: int(element) raises TypeError *)
+
+Definition lelem_is_str (e : lelem) : bool := match e with LE_str _ => true | _ => false end.
+
+Inductive kw_outcome := KW_stored | KW_skipped | KW_err (e : exn).
+
+Fixpoint mixed_regex (r : re) (l : list lelem) : option exn :=
+  match l with
+  | [] => None
+  | LE_str s :: t => if re_match label_list_mode r s then mixed_regex r t else Some ELabel
+  | _ :: _ => Some EType                         (* re.fullmatch(pattern, non-str) *)
+  end.
+
+Definition mixed_range_one (rk : rangek) (e : lelem) : option exn :=
+  match e with
+  | LE_str s => range_check rk s
+  | LE_int z => match rk with RInt b => if in_bounds b z then None else Some ELabel | RSplit _ _ _ _ => Some ELabel end
+  | LE_bad => Some EType
+  end.
+
+Fixpoint mixed_range (rk : rangek) (l : list lelem) : option exn :=
+  match l with
+  | [] => None
+  | e :: t => match mixed_range_one rk e with Some x => Some x | None => mixed_range rk t end
+  end.
+
+(* one keyword whose value is a list with at least one non-string element *)
+Definition mixed_outcome (forgiving : bool) (k : str) (l : list lelem) : kw_outcome :=
+  if label_list_elements_typechecked then KW_err EAssert
+  else if negb (mem_str k label_fields) then (if forgiving then KW_skipped else KW_err ELabel)
+  else match (match lookup k label_validators with Some r => mixed_regex r l | None => None end) with
+       | Some e => KW_err e
+       | None => match (match lookup k label_lambdas with Some rk => mixed_range rk l | None => None end) with
+                 | Some e => KW_err e
+                 | None => KW_stored
+                 end
+       end.
+
+(* one keyword whose NAME is an attribute of the object (method, class table) but not a field; value a str *)
+Definition nonfield_attr_outcome (forgiving : bool) : kw_outcome :=
+  if label_field_test_is_dict then (if forgiving then KW_skipped else KW_err ELabel) else KW_stored.
+Definition nonfield_attr_outcome_from_json : kw_outcome :=
+  if from_json_prefilters then KW_skipped else nonfield_attr_outcome true.
+Definition caps_nonfield_attr_outcome (forgiving : bool) : kw_outcome :=
+  if caps_field_test_is_dict then (if forgiving then KW_skipped else KW_err ECapacity) else KW_stored.
+
 (* ------------------------------------------------------------------------------------------ *)
 (* Tags                                                                                         *)
 (* ------------------------------------------------------------------------------------------ *)
@@ -499,11 +573,41 @@ Definition check_misc (m : misc) : bool :=
   | M_caps fg kws r => result_eqb ckvs_eqb (caps_ctor fg kws) r
   end.
 
+(* round 4: non-string list elements, attribute-name keywords, direct assignment then attach *)
+Inductive extra :=
+| X_mixed (entry : N) (k : str) (l : list lelem) (o : kw_outcome)      (* entry 0 ctor, 1 update, 2 from_json *)
+| X_attr (entry : N) (o : kw_outcome)
+| X_caps_attr (forgiving : bool) (o : kw_outcome)
+| X_assign_attach (base : list (str * lval)) (k : str) (v : lval) (wrote : bool).   (* Labels( base ); l.k = v; element.labels = l *)
+
+Definition kw_outcome_eqb (a b : kw_outcome) : bool :=
+  match a, b with
+  | KW_stored, KW_stored | KW_skipped, KW_skipped => true
+  | KW_err x, KW_err y => exn_eqb x y
+  | _, _ => false
+  end.
+
+Definition check_extra (x : extra) : bool :=
+  match x with
+  | X_mixed e k l o => kw_outcome_eqb (mixed_outcome (N.eqb e 2) k l) o
+  | X_attr e o => kw_outcome_eqb (if N.eqb e 2 then nonfield_attr_outcome_from_json else nonfield_attr_outcome false) o
+  | X_caps_attr fg o => kw_outcome_eqb (caps_nonfield_attr_outcome fg) o
+  | X_assign_attach base k v wrote =>
+      match labels_ctor base with
+      | Ok st => match attach_labels set_labels_revalidates (attr_assign st k v) with
+                 | Ok _ => Bool.eqb wrote true
+                 | Err _ => Bool.eqb wrote false
+                 end
+      | Err _ => false
+      end
+  end.
+
 (* the same values arriving through the topology API *)
 Inductive topo :=
 | T_labels (x : lentry * lobs)
 | T_misc (m : misc)
-| T_setname (cls old s : str) (taken : bool) (handle graph : str) (e : option exn).
+| T_setname (cls old s : str) (taken : bool) (handle graph : str) (e : option exn)
+| T_extra (x : extra).
 
 Definition check_topo (t : topo) : bool :=
   match t with
@@ -512,4 +616,6 @@ Definition check_topo (t : topo) : bool :=
   | T_setname cls old s taken h g e =>
       let '((h', g'), e') := elem_set_name cls old s taken in
       str_eqb h h' && str_eqb g g' && opt_eqb exn_eqb e e'
+  | T_extra x => check_extra x
   end.
+
